@@ -335,9 +335,17 @@ def opWalk (prop : String) (j : Json) : R Verdict := do
   -- every file with a tree must have been walked
   let expectedWalks := (out.filter (fun fr => fr.ast.isSome)).length
   if nfiles ≠ expectedWalks then acc := { acc with corr15 := false }
+  -- the validated trees the walkers were given are what the model's validation makes of the syntax-stage trees (which
+  -- `readAsWritten` compares with the generator's): the walk is not judged on a tree only the implementation vouches for
+  let fullOk := match (impl.getObjVal? "stage1").toOption.bind (fun sj => (list fileResult sj).toOption) with
+    | some stage1 => match validate HashOrder.id stage1 with
+      | .ok m => decide (sortById m = out)
+      | .error _ => false
+    | none => true
+  acc := { acc with corr15 := acc.corr15 && fullOk, corr16 := acc.corr16 && fullOk, corr17 := acc.corr17 && fullOk }
   if prop == "C15" || prop == "all" then
     let readOk15 := match (impl.getObjVal? "stage1").toOption.bind (fun sj => (list fileResult sj).toOption) with
-      | some stage1 => readAsWritten j stage1
+      | some stage1 => readAsWritten j stage1 && positionsTrue j out
       | none => true
     v := (v.addCorr "C15" acc.corr15).addSpec "C15" (acc.spec15 && readOk15)
     v := { v with nontrivial := acc.nsyms > 3, dist := bump v.dist s!"symbols~{min (acc.nsyms / 10 * 10) 100}" }
@@ -356,7 +364,7 @@ def opWalk (prop : String) (j : Json) : R Verdict := do
           let defined := collectItemKeys stage1
           resolutionAsSpecified { stage1, out, model := [], defined }
     let readOk := match (impl.getObjVal? "stage1").toOption.bind (fun sj => (list fileResult sj).toOption) with
-      | some stage1 => readAsWritten j stage1
+      | some stage1 => readAsWritten j stage1 && positionsTrue j out
       | none => true
     v := (v.addCorr "C17" acc.corr17).addSpec "C17" (Spec.C17.holdsProject out reported && resOk && readOk)
     let nres := (out.flatMap fun fr => match fr.ast with
@@ -804,13 +812,16 @@ def parseExtras (prop : String) (c : ParseCtx) (v : Verdict) : R Verdict := do
           && hasError fr.diags
           -- every syntax Error lies within the extent of the malformed member
           && fr.diags.all (fun d => d.kind != .error || (gs ≤ d.range.start.off && d.range.stop.off ≤ ge))
-      v := v.addSpec "C14" ok
+      -- … and the malformed member still costs an Error after validation: every file keeps its tree and at least one Error
+      -- (a validation that merges or replaces diagnostics must not make the syntax Error disappear)
+      let okOut := c.out.all fun fr => fr.ast.isSome && hasError fr.diags
+      v := v.addSpec "C14" (ok && okOut)
       -- K2 (known finding): inside an enum body `,` is also the separator of annotation parameters, so a
       -- malformed element with an unclosed `(` does not end at its `,`: the following element is swallowed
       let gtoks := ((g.getObjVal? "tokens").toOption.bind (fun t => (list str t).toOption)).getD []
       let isEnum := ((g.getObjVal? "enum").toOption.bind (·.getBool?.toOption)).getD false
       let k2 := isEnum && (gtoks.filter (· == "(")).length > (gtoks.filter (· == ")")).length
-      if !ok && k2 then
+      if !(ok && okOut) && k2 then
         v := v.addDetail "known_finding" (Json.mkObj [("id", "K2"), ("example", Json.arr (gtoks.map Json.str).toArray)])
       if !ok then
         v := v.addDetail "C14" (Json.mkObj [("garbage", Json.arr #[gs, ge]),
